@@ -212,7 +212,8 @@ func (s *DisabledExp) makeDisabledExp(disable, inner Exp) (Exp, error) {
 				return s.makeDisabledExp(val, inner)
 			}
 			m := make(map[string]Exp, len(dv.Value))
-			for k, dvi := range dv.Value {
+			for _, k := range sortedKeys(dv.Value) {
+				dvi := dv.Value[k]
 				var err error
 				m[k], err = s.makeDisabledExp(dvi, inner)
 				if err != nil {
